@@ -132,6 +132,7 @@ func c08History(g *Gen, code string, targets []*big.Int) {
 	again, st2 := run(obj, cloneInts(targets))
 	fresh, st3 := run(seqAlg(code), cloneInts(targets))
 	g.Count("history")
+	g.Returned()
 	if st2 != st3 || !equalInts(again, fresh) || st1 != st3 || !equalInts(firstCopy, fresh) {
 		g.Notes = append(g.Notes, "VIOLATION: "+code+".FindSequence("+encInts(targets)+") after earlier calls on the same object returns "+
 			st2+" "+encInts(again)+", first call "+st1+" "+encInts(firstCopy)+", a fresh object "+st3+" "+encInts(fresh))
